@@ -116,3 +116,27 @@ class Big(Command):
         for c in kwargs.get("L") or []:
             out = out + c.result
         return out
+
+
+class IterOp(Op):
+    """A command object that can be iterated over (it yields nothing): still one command wherever it is referenced."""
+    inputs = dict(Op.inputs)
+    output = Op.output
+
+    def __iter__(self):
+        return iter(())
+
+    def execute(self, **kwargs):
+        EXEC_LOG.append(self.result_name)
+        return ("op", self.result_name, tuple((k, _val(kwargs[k])) for k in sorted(kwargs) if k not in ("Metadata", "Q", "QL")))
+
+
+class BoolSrc(Command):
+    """Produces a boolean mask (a data array whose element type is not numeric)."""
+    inputs = {"V": params.NumberParameter()}
+    output = params.DataParameter()
+
+    def execute(self, **kwargs):
+        import numpy
+        EXEC_LOG.append(self.result_name)
+        return numpy.array([True, False, bool(int(kwargs["V"]) % 2)])
